@@ -109,6 +109,7 @@ class Proc(object):
         self.intr_at_mut = None  # SIGINT (KeyboardInterrupt, once) before the k-th mutating op
         self.fds = {}            # fd -> virtual path
         self.writers = []        # live SimWriter objects
+        self.readers = []        # live SimReader objects
         self.max_ops = spec.get('max_ops', 20000)
         self.exit = None
         self.exc = None
@@ -1082,7 +1083,9 @@ def w_builtin_open(file, mode='r', buffering=-1, encoding=None, errors=None,
         # themselves are not separate ops (open+read of a small file is one
         # step of the simulation).
         f = O.builtin_open(fd, mode, buffering, encoding, errors, newline, True)
-        return SimReader(f, fd, K.cur, file)
+        rd = SimReader(f, fd, K.cur, file)
+        K.cur.readers.append(rd)
+        return rd
     if plus:
         raise HarnessError('open() mode %r is not simulated' % mode)
     w = SimWriter(fd, vpath, binary, encoding, errors, file, mode)
